@@ -85,5 +85,6 @@ def main (args : List String) : IO UInt32 := do
   | ["c05"] => Vsgm.Classify.classifyMain stdin stdout; stdout.flush; return 0
   | ["ws"] => Vsgm.Base.wsMain stdin stdout; return 0
   | ["post"] => Vsgm.Post.postMain stdin stdout; return 0
+  | ["caseu"] => Vsgm.Base.Case.Cli.caseuMain stdin stdout; stdout.flush; return 0
   | ["wb"] => Vsgm.WB.wbMain stdin stdout; return 0
   | _ => IO.eprintln "usage: driver <mode>"; return 2
